@@ -1,5 +1,6 @@
 import Fv.Lemmas.LogJsonMain
 import Fv.Lemmas.LogPattern
+import Fv.Lemmas.LogRun
 /-!
 # C20 — log encoders are total and lossless; file rolling never loses or tears records
 
@@ -113,6 +114,152 @@ theorem pattern_ends_with_newline (pat : Text) (ev : Event) (out : Text) (h : Pa
   simp only [Pattern.formatEvent, Option.map_eq_some_iff] at h
   obtain ⟨raw, _, rfl⟩ := h
   exact Pattern.ensureNewline_last raw
+
+
+/-! ## rolling file appender
+
+Vocabulary (`Fv/Lemmas/LogRep.lean`, `LogRun.lean`): a `Roller.Run` is a roller over a directory with a clock;
+`Run.init p t0` starts it on an empty directory, `Run.run p r ops` performs any sequence of
+`write id len` / `advance secs` / `restart` (a new `CustomRoller` over the existing directory).
+`r.written` is the ghost sequence of records handed to `write`. `Roller.canon p rolled active` is the directory
+holding exactly the active file `prefix++suffix` with content `active` and, per entry of `rolled`, the file
+`prefix.PERIOD.SEQ suffix[gz]` with that entry's records. `Roller.WF p` restricts the *names* only
+(no `.digit` inside prefix/suffix, suffix not starting with a digit, compressed suffix non-empty, digit-free and
+not a suffix of the suffix); every size limit, granularity, retention count and compression setting is allowed.
+`Run.Bounded`: clock before year 9994 and fewer than 2^31-1 writes (u32 sequence numbers, four-digit years). -/
+
+/- The three theorems below carry the hypothesis `WF p` on the *name* configuration and are therefore `_partial`
+with respect to "every rolling policy": the code does not validate prefix / suffix / compressed suffix, and without
+`WF` the statements are false of the code (`C20_fails_F17a`, `C20_fails_F17b`); they are also about one roller in its
+own directory (`C20_fails_F15`). -/
+
+open Roller in
+/-- For every policy with well-formed names and every history of writes, clock steps and restarts:
+the directory consists of exactly the active file and rolled files whose (period, sequence) keys are
+strictly ascending; the rolled files' records in that order followed by the active file's are a *suffix*
+of the written sequence (nothing lost in the middle, duplicated or reordered; only whole oldest files
+disappear); and at most `max_retained_sequences` rolled files remain. -/
+theorem roller_retained_suffix_partial (p : Roller.Policy) (hw : WF p) (t0 : Nat) (ops : List ROp)
+    (hb : ((Run.init p t0).run p ops).Bounded) :
+    ∃ rolled active,
+      ((Run.init p t0).run p ops).fs.Perm (canon p rolled active) ∧
+      rolled.Pairwise entryLt ∧
+      (recsOf rolled ++ active) <:+ ((Run.init p t0).run p ops).written ∧
+      (∀ n, p.maxRetained = some n → rolled.length ≤ n) := by
+  obtain ⟨rolled, active, h1, h2, _, _, _, h6, _, h8⟩ := Run.run_inv hw _ (Run.init_inv p t0) ops hb
+  exact ⟨rolled, active, h1, h2.asc, h6, h8⟩
+
+open Roller in
+/-- Consequence: if the written records are pairwise distinct, no record occurs twice in the directory. -/
+theorem roller_no_duplicates_partial (p : Roller.Policy) (hw : WF p) (t0 : Nat) (ops : List ROp)
+    (hb : ((Run.init p t0).run p ops).Bounded) (hnd : ((Run.init p t0).run p ops).written.Nodup) :
+    ∃ rolled active, ((Run.init p t0).run p ops).fs.Perm (canon p rolled active) ∧ (recsOf rolled ++ active).Nodup := by
+  obtain ⟨rolled, active, h1, _, h3, _⟩ := roller_retained_suffix_partial p hw t0 ops hb
+  exact ⟨rolled, active, h1, hnd.sublist h3.sublist⟩
+
+open Roller in
+/-- `rolled_path` never equals an existing name — for *any* directory content: the name `roll` renames
+the active file to (period of the current period start, sequence `nextSeq` = 1 + highest discovered sequence
+of that period) is not the name of any existing file. -/
+theorem roller_no_clobber_partial (p : Roller.Policy) (hw : WF p) (fs : FS) (pstart : Nat)
+    (hps : periodStart p.gran pstart = pstart) (hpr : pstart < tMax) (hseq : nextSeq p fs pstart < 4294967296) :
+    rolledName p (stampOfSecs pstart) (nextSeq p fs pstart) ∉ fs.map (·.1) := by
+  intro hmem
+  obtain ⟨e, he, hn⟩ := List.mem_map.mp hmem
+  have hv : (stampOfSecs pstart).Valid := stampOfSecs_valid _ hpr
+  have ha : Aligned p.gran (stampOfSecs pstart) := by rw [← hps]; exact aligned_periodStart _ _
+  have hparse := parseRolledName_rolledName p hw (stampOfSecs pstart) hv ha (nextSeq p fs pstart) hseq
+  have hin : ({ stamp := stampOfSecs pstart, seq := nextSeq p fs pstart,
+                name := rolledName p (stampOfSecs pstart) (nextSeq p fs pstart), compressed := false } : RolledFile)
+      ∈ findRolled p fs := by
+    rw [findRolled, (sortRolled_perm _).mem_iff, List.mem_filterMap]
+    exact ⟨e, he, by rw [hn]; exact hparse⟩
+  have := maxSeq_ge p (stampOfSecs pstart) _ _ hin rfl
+  simp only [nextSeq] at this
+  omega
+
+open Roller in
+/-- the file `roll` creates is named with `nextSeq` — the name `roller_no_clobber_partial` speaks about -/
+theorem roller_roll_uses_nextSeq (p : Roller.Policy) (fs : FS) (st : RState) (now : Nat) :
+    ∃ rest, (roll p fs st now).1 =
+      cleanup p (fsOpen (fsRename fs (baseName p) (rolledName p (stampOfSecs st.pstart) (nextSeq p fs st.pstart))) (baseName p)).1 rest :=
+  ⟨_, rfl⟩
+
+section examples
+open Roller
+def polEx : Roller.Policy :=
+  { pfx := "app".toList, sfx := ".log".toList, gran := .minutely, maxSize := some 40, maxRetained := some 2,
+    compression := some { suffix := ".gz".toList, keep := 1 } }
+
+example : WF polEx :=
+  { clean := by decide, sfxHead := by decide, gzNe := by decide, gzNoDigit := by decide, sfxNotGz := by decide }
+
+example : ((Run.init polEx 0).run polEx [.write 1 30, .write 2 30, .advance 70, .write 3 8, .restart, .write 4 50]).Bounded := by
+  unfold Run.Bounded; decide +kernel
+end examples
+
+
+/-! ### F15: two rolling appenders in one directory whose prefixes are prefixes of each other -/
+
+section F15
+open Roller
+def polA : Roller.Policy := { pfx := "app".toList, sfx := ".log".toList, gran := .daily, maxSize := some 20, maxRetained := some 1 }
+def polB : Roller.Policy := { pfx := "app2".toList, sfx := ".log".toList, gran := .daily, maxSize := some 20, maxRetained := none }
+
+example : WF polA := { clean := by decide, sfxHead := by decide, gzNe := by decide, gzNoDigit := by decide, sfxNotGz := by decide }
+example : WF polB := { clean := by decide, sfxHead := by decide, gzNe := by decide, gzNoDigit := by decide, sfxNotGz := by decide }
+
+/-- the shared directory after: A and B open, B writes records 1 and 2 (each write reaches B's size limit and rolls) -/
+def f15Before : FS × RState :=
+  let a := openRoller polA [] 0
+  let b := openRoller polB a.1 0
+  let b1 := write polB b.1 b.2 (1, 30) 0
+  let b2 := write polB b1.1 b1.2 (2, 30) 0
+  (b2.1, a.2)
+
+/-- ... and then A writes record 3 (reaches A's size limit and rolls, retention `Some(1)`) -/
+def f15After : FS := (write polA f15Before.1 f15Before.2 (3, 30) 0).1
+
+def holdsRecord (fs : FS) (id : Nat) : Bool := fs.any (fun e => e.2.recs.any (fun r => r.1 = id))
+
+/-- F15: both well-formed rollers alone satisfy `roller_retained_suffix`; together, A's retention pass deletes
+B's rolled files although B has no retention limit (records 1 and 2 of B vanish), and A's sequence number is
+computed from the union (A's first rolled file gets sequence 3). -/
+theorem C20_fails_F15 :
+    polB.maxRetained = none ∧
+    holdsRecord f15Before.1 1 = true ∧ holdsRecord f15Before.1 2 = true ∧
+    holdsRecord f15After 1 = false ∧ holdsRecord f15After 2 = false ∧
+    (fsGet f15After "app.1970-01-01.3.log".toList).isSome = true := by
+  decide +kernel
+end F15
+
+
+/-! ### F17: name configurations the code accepts but its own file-name scheme cannot handle -/
+
+section F17
+open Roller
+/-- prefix containing text the date/sequence regex matches -/
+def polStamp : Roller.Policy := { pfx := "a.2020-01-01.7x".toList, sfx := ".log".toList, gran := .daily, maxSize := some 20 }
+/-- empty `compressed_file_suffix`, compress everything -/
+def polNoGz : Roller.Policy :=
+  { pfx := "app".toList, sfx := ".log".toList, gran := .daily, maxSize := some 20, compression := some { suffix := [], keep := 0 } }
+
+def runWrites (p : Roller.Policy) (ids : List Nat) : Run := (Run.init p 0).run p (ids.map (fun i => ROp.write i 30))
+
+/-- F17a: with the prefix `a.2020-01-01.7x` every rolled file is "discovered" as (2020-01-01, 7), the sequence of the
+current period is never found, every roll uses sequence 1 and renames over the previous rolled file: after two
+writes (each reaches the size limit) record 1 is gone although there is no retention limit. -/
+theorem C20_fails_F17a :
+    polStamp.maxRetained = none ∧ holdsRecord (runWrites polStamp [1]).fs 1 = true ∧
+      holdsRecord (runWrites polStamp [1, 2]).fs 1 = false ∧ holdsRecord (runWrites polStamp [1, 2]).fs 2 = true := by
+  decide +kernel
+
+/-- F17b: with an empty compressed suffix `compress_file` truncates and then removes the rolled file itself:
+the record written is in no file afterwards although there is no retention limit. -/
+theorem C20_fails_F17b :
+    polNoGz.maxRetained = none ∧ (runWrites polNoGz [1]).written = [(1, 30)] ∧ holdsRecord (runWrites polNoGz [1]).fs 1 = false := by
+  decide +kernel
+end F17
 
 def evF13 : Event :=
   { timestamp := "t".toList, level := .info, target := "a".toList, name := "n".toList, message := some "m".toList }
